@@ -7,7 +7,7 @@ how bitstructs.py computes offsets.  Leaf values are symbolic (unbounded); shape
 import sys, itertools, random, hashlib
 import z3
 from pyvc.contracts import Contract, Case, GenModule
-from pyvc.symexec import IntT, BoolT, NoneT, ObjT, OneOf, SpecType, register_spec_fun, as_int, mk_value, ToolError
+from pyvc.symexec import IntT, BoolT, NoneT, ObjT, OneOf, SpecType, register_spec_fun, as_int, mk_value, ToolError, type_label
 from pyvc.values import I, B, Ref, Tup, Cls, ClsN, Fn, NONE
 from pyvc import runtime
 
@@ -258,8 +258,8 @@ def shape_contracts(name,shapes,props=('C06',)):
   fields=shapes[name].fields
   def argt(ft):
     if ft[0]=='bits': return OneOf(BitsT,IntT())
-    if ft[0]=='list': return ListT(ft,shapes)
-    return StructT(ft[1],shapes)
+    if ft[0]=='list': return OneOf(ListT(ft,shapes),NoneT())
+    return OneOf(StructT(ft[1],shapes),NoneT())
   selfname='s' if all(fn!='s' for fn,_ in fields) else '__bitstruct_self__'
   view={selfname:ObjT(name,[])}; view.update({fn:argt(ft) for fn,ft in fields})
   ens=[]; req=[]
@@ -276,9 +276,21 @@ def shape_contracts(name,shapes,props=('C06',)):
       if ft[0]=='bits':
         r=st.alloc('Bits'); st.heap[(r.id,'_nbits')]=I(ft[1]); st.heap[(r.id,'_uint')]=I(st.fresh_int(f'new.{fn}'))
         st.heap[(selfv.id,fn)]=r
+      elif env[fn] is NONE or type(env[fn]).__name__=='NoneV':
+        st.heap[(selfv.id,fn)]=StructT('',shapes)._mk(ft,f'new.{fn}',st,True)      # default: a fresh tree (values fixed by the postcondition)
       else: st.heap[(selfv.id,fn)]=env[fn]
+  nonbits=[fn for fn,ft in fields if ft[0]!='bits']
+  lay=layout(T,shapes,'',W)
+  top_bits=" + ".join(f"modp(ival({fn}), {ft[1]}) * {2**[lo for p_,lo,w_ in lay if p_==fn][0]}" for fn,ft in fields if ft[0]=='bits') or "0"
+  ens_bits=[e for e,(fn,ft) in zip(ens,fields) if ft[0]=='bits']
+  cases=[Case('given', requires=' and '.join(req) if req else 'True', ensures=' and '.join(ens), when={fn:type_label(ListT(ft,shapes) if ft[0]=='list' else StructT(ft[1],shapes)) for fn,ft in fields if ft[0]!='bits'},
+              source="code-derived constructor contract: Bits fields are copied into fresh objects of the declared width, list/struct arguments are stored as given")]
+  if nonbits:
+    cases.append(Case('defaults', requires=' and '.join(req) if req else 'True', when={fn:'none' for fn in nonbits},
+      ensures=' and '.join(ens_bits+[f"wf_{name}({selfname})",f"allfresh_{name}({selfname})",f"pack_{name}({selfname}) == {top_bits}"]),
+      source=S_CP+": a default-constructed value is a tree of pairwise distinct zero leaves (rows of a list field are not one shared object), so a later field-by-field copy cannot alias"))
   cs.append(Contract(f'{K}.__init__', view=view, call_effect=ctor_effect, sample=False,
-    cases=[Case('given', requires=' and '.join(req) if req else 'True', ensures=' and '.join(ens), source="code-derived constructor contract: Bits fields are copied into fresh objects of the declared width, list/struct arguments are stored as given")],
+    cases=cases,
     modifies=[f'{selfname}.{fn}' for fn,_ in fields], returns=None, property_ids=props))
   return cs
 
